@@ -385,6 +385,62 @@ def html_frames(html):
     return out
 
 
+def html_sample(html):
+    """The source sample of html_error_template output, read structurally: [(line number or None, shown text, highlighted)].
+    With the pygments formatter every sample line is numbered and the failing one carries the class "error"; the plain
+    fallback shows the lines only."""
+    import html as _h
+    m = re.search(r'<div class="sample">(.*?)<div class="stacktrace">', html, re.S)
+    if not m:
+        return None
+    body = m.group(1)
+    out = []
+    blocks = re.findall(r'<div class="((?:error )?)[^"]*highlighted">(.*?)</table>', body, re.S)
+    if blocks:
+        for err, b in blocks:
+            n = re.search(r'class="linenos".*?(\d+)', b, re.S)
+            c = re.search(r'<td class="code">(.*?)</td>', b, re.S)
+            out.append((int(n.group(1)) if n else None, _h.unescape(re.sub(r"<[^>]*>", "", c.group(1))).strip().lstrip("\ufeff").strip() if c else None, bool(err)))
+        return out
+    inner = re.search(r'<div class="nonhighlight">(.*?)</div>\s*</div>', body, re.S)
+    for ln in (inner.group(1) if inner else "").split("\n"):
+        if ln.strip():
+            out.append((None, _h.unescape(ln).strip().lstrip("\ufeff").strip(), False))
+    return out
+
+
+def _squash(t):
+    import unicodedata
+    return "".join(ch for ch in t if not ch.isspace() and unicodedata.category(ch) not in ("Cc", "Cf", "Zl", "Zp"))
+
+
+def check_sample(sample, src, line):
+    """None or the failing clause: the sample must show the frame's line (highlighted when lines are numbered) with its
+    text, and every numbered neighbour with the text the source has at that number."""
+    if sample is None:
+        return "sample-missing"
+    want = (lc.physical_line(src, line) or "").strip()
+    numbered = [x for x in sample if x[0] is not None]
+    if numbered:
+        hit = [x for x in numbered if x[0] == line]
+        if not hit:
+            return "line-missing"
+        if not hit[0][2] or sum(1 for x in numbered if x[2]) != 1:
+            return "not-highlighted"
+        if (hit[0][1] or "") != want:
+            return "wrong-text"
+        for n, t, _ in numbered:       # neighbours: modulo what a highlighter does to blanks and control characters
+            if _squash(t or "") != _squash(lc.physical_line(src, n) or ""):
+                return "wrong-neighbour-text"
+        nums = [x[0] for x in numbered]
+        if nums != list(range(nums[0], nums[0] + len(nums))):
+            return "not-contiguous"
+        return None
+    if want and want not in [x[1] for x in sample]:
+        return "line-missing"
+    return None
+
+
 def text_frames(txt):
     """[(file, line, function, displayed source text)] of text_error_template output."""
     return [(a, int(b), c, d.strip().lstrip("\ufeff").strip()) for a, b, c, d in re.findall(r'  File "([^"\n]*)", line (\d+), in (\S+)\n    ([^\n]*)', txt)]
@@ -420,6 +476,13 @@ def compare_frames(exp, o, texts):
     if "text_tmpl" in o:
         tf, hf = text_frames(o["text_tmpl"]), html_frames(o["html_tmpl"])
         hp = html_frames(o["html_tmpl_plain"]) if "html_tmpl_plain" in o else None
+        bad = check_sample(html_sample(o["html_tmpl"]), texts[exp[-1][1]], exp[-1][2])
+        if bad:
+            return ("html-sample", bad)
+        if "html_tmpl_plain" in o:
+            bad = check_sample(html_sample(o["html_tmpl_plain"]), texts[exp[-1][1]], exp[-1][2])
+            if bad:
+                return ("html-sample-plain", bad)
         for (fname, uri, line), f in zip(exp, fr):
             want = (lc.physical_line(texts[uri], line) or "").strip()
             hit = [x for x in tf if x[0] == str(f["file"]) and x[1] == line and x[2] == f["fn"]]
@@ -642,6 +705,25 @@ def check(run):
     def hsh(ci, salt=""):
         return int(hashlib.sha1(("%d:%s:%d" % (run.seed, salt, ci)).encode()).hexdigest()[:8], 16)
 
+    def edge_of(c):
+        """where the innermost frame's line stands in the text (a layout dimension, Lines.tla nlines / endnl)"""
+        l, n = c["frames"][-1], c["nlines"]
+        if n == 1:
+            return "single-line"
+        if l == n and not c["endnl"]:
+            return "last-line-without-terminator"
+        if l == n - 1 and c["endnl"]:
+            return "last-line-with-terminator"
+        if l == 1:
+            return "first-line"
+        return None
+
+    have = {(edge_of(c), c["nl"]) for c in leafs}
+    for ek in ("single-line", "last-line-without-terminator", "last-line-with-terminator", "first-line"):
+        if (ek, "lf") not in have or (ek, "crlf") not in have and ek != "single-line":
+            raise MachineryError("layout dimension not covered: raise on %s" % ek)
+    seen_edge = set()
+    edge_cases = []
     seen_paths = set()
     stride = 11 if thorough else 97
     # ---- single templates
@@ -653,7 +735,7 @@ def check(run):
         paths = ["plain"]
         key = (fe["id"], c["nl"])
         is_sus = any(E[i - 1]["group"] == "sus" for i in c["seq"]) or c["group"] == "rep"
-        if c["group"] == "rt" and key in seen_paths and hsh(ci, "pl") % 3:
+        if c["group"] == "rt" and key in seen_paths and hsh(ci, "pl") % 4:
             continue        # (sampling the largest instance; every entry x terminator is rendered on all paths once, see below)
         if key not in seen_paths or hsh(ci) % stride == 0:
             seen_paths.add(key)
@@ -681,8 +763,17 @@ def check(run):
                             raise names["!fail"]
                         tl[0] = lk.get_template("/t.html")
                         return tl[0]
-            o = render_and_observe(get, stubs_of(c), want_templates=((p == "plain" and ((is_sus and c["group"] != "rep") or hsh(ci, p) % 6 == 0)) or (p != "plain" and hsh(ci, p) % 3 == 0)),
-                                   plain_too=(hsh(ci, p) % 2 == 0))
+            ek = (edge_of(c), c["nl"], hsh(len(fe["id"]), fe["id"]) % 3)
+            is_edge = p == "plain" and ek[0] is not None and ek not in seen_edge
+            if is_edge:
+                seen_edge.add(ek)
+                edge_cases.append(c)
+            susk = tuple(E[i - 1]["id"] for i in c["seq"] if E[i - 1]["group"] == "sus") + (c["nl"],)
+            sus_first = p == "plain" and len(susk) > 1 and (susk not in seen_edge or hsh(ci, "st") % 3 == 0)
+            if sus_first:
+                seen_edge.add(susk)
+            o = render_and_observe(get, stubs_of(c), want_templates=(is_edge or sus_first or (p == "plain" and hsh(ci, p) % 6 == 0) or (p != "plain" and hsh(ci, p) % 3 == 0)),
+                                   plain_too=(is_edge or hsh(ci, p) % 2 == 0))
             n_render += 1
             exp = [(fname, "/t.html", l) for l in c["frames"]]
             d = compare_frames(exp, o, {"/t.html": text})
@@ -724,7 +815,7 @@ def check(run):
         if ci < 3:
             run.sample({"layout": [E[i - 1]["id"] for i in c["seq"]], "nl": c["nl"], "template": text, "expected_frame_lines": c["frames"]})
     # ---- format_exceptions output
-    fx = leafs[:: max(1, len(leafs) // 40)] + [c for c in leafs if any(E[i - 1]["group"] == "sus" for i in c["seq"])]
+    fx = leafs[:: max(1, len(leafs) // 40)] + [c for c in leafs if any(E[i - 1]["group"] == "sus" for i in c["seq"])] + edge_cases
     for ci, c in enumerate(fx):
         from mako.template import Template
         nl = "\n" if c["nl"] == "lf" else "\r\n"
@@ -735,6 +826,10 @@ def check(run):
             hf = [x for x in html_frames(out) if x[0].startswith("memory:")]
             locs = [x[1] for x in hf]
             wrong = [x for x in hf if x[1] in c["frames"] and x[2] != (lc.physical_line(text, x[1]) or "").strip()]
+            bad = check_sample(html_sample(out), text, c["frames"][-1]) if set(c["frames"]) <= set(locs) else None
+            if bad and not wrong:
+                note("format-exceptions-sample:%s:%s" % (fe_of(c)["id"], bad), "the source sample of the error page: %s (frame line %d of %d, text %s with a final terminator)"
+                     % (bad, c["frames"][-1], c["nlines"], "ends" if c["endnl"] else "does not end"), {"template": text, "layout": [E[i - 1]["id"] for i in c["seq"]]})
             if wrong and set(c["frames"]) <= set(locs):
                 note("format-exceptions-source-line:%s" % fe_of(c)["id"], "error page shows %r for line %d" % (wrong[0][2], wrong[0][1]),
                      {"template": text, "shown": wrong, "layout": [E[i - 1]["id"] for i in c["seq"]]})
@@ -1002,6 +1097,9 @@ def check(run):
         "displayed source text of every template frame is compared on all surfaces (records, text/html templates, format_exceptions)",
         "options (preprocessor identity / deleting / inserting lines / a list, bytes with magic comment, BOM, strict_undefined, enable_loop=False, "
         "imports, future_imports, default_filters) x 5 raises and 2 warning entries: frame lines, displayed source text and warning lines refer to the text the lexer lexes",
+        "layout dimension 'where the frame's line stands': first line, last line with / without a final terminator, single-line template, LF and CRLF - "
+        "asserted present on every run; for each of them the html error page is read structurally (sample block: the frame's line present, highlighted when "
+        "lines are numbered, every numbered neighbour with the source's text) with and without pygments, and through format_exceptions",
         "path spellings: module_directory absolute+slash / relative / relative+slash / ./ / dir/../dir x template filename or lookup directory "
         "absolute / relative, run with cwd = the world's root, for 7 representative raises and 4 warning entries (frames, error templates, warnings)",
         "also: RichTraceback inside an error_handler, format_exceptions through a lookup, html page with and without pygments (only file, line "
